@@ -12,7 +12,7 @@
    the table under test and the rows outside both tables.
    result code: Run/Glue.v [code], plus 4 when a table history is not well-formed
    (a harness bug, never a verdict on the code). *)
-From Tab Require Export Run.Glue Model.ErrCont Model.ErrRoute Spec.ErrLog.
+From Tab Require Export Run.Glue Model.ErrCont Model.ErrRoute Spec.ErrLog Model.ErrBulk Spec.ErrBulk.
 
 Definition err_eqb : err -> err -> bool := option_eqb N.eqb.
 Definition errs_eqb : option (list err) -> option (list err) -> bool := option_eqb (list_eqb err_eqb).
@@ -86,10 +86,91 @@ Fixpoint tab_ok (pre : list event) (steps : list tstep) : bool :=
       end && tab_ok pre' r
   end.
 
+(* ---- cases at volume (round 6): bulk operations (Model/ErrBulk.v), one
+   observation per bulk step, every Errors() result given by its runs of
+   consecutive ids.
+     corr : the loops of Model/ErrBulk.v predict the observations
+     ok   : container - the observation is the view of Spec/ErrBulk.v's log of the
+            bulk history; table - [tab_ok] on the expanded history *)
+Definition vview := option (list seg).
+Definition unview (v : vview) : option (list err) := option_map unruns v.
+
+Definition vcobs := res (vview * vview).
+Definition unvcobs (o : vcobs) : cobs :=
+  match o with
+  | Ok (a, b) => Ok (unview a, unview b)
+  | Err => Err
+  | Panic => Panic
+  end.
+
+Fixpoint vcont_model (c : cont) (ops : list vop) : list cobs :=
+  match ops with
+  | [] => []
+  | o :: r => let c' := vstep c o in Ok (errors c', errors c') :: vcont_model c' r
+  end.
+
+Fixpoint vcont_ok (m : cmode) (pre : list vop) (steps : list (vop * vcobs)) : bool :=
+  match steps with
+  | [] => true
+  | (o, ob) :: r =>
+      let pre' := pre ++ [o] in
+      let v := view (vexpected m pre') in
+      match unvcobs ob with
+      | Ok (a, b) => errs_eqb a v && errs_eqb b v
+      | _ => false
+      end && vcont_ok m pre' r
+  end.
+
+Definition vtobs := res (vview * list (nat * vview)).
+Definition unvtobs (o : vtobs) : tobs :=
+  match o with
+  | Ok (t, rows) => Ok (unview t, map (fun p => (fst p, unview (snd p))) rows)
+  | Err => Err
+  | Panic => Panic
+  end.
+Definition vtstep := (list bev * vtobs)%type.
+Definition unvtstep (s : vtstep) : tstep := (bexpand_all (fst s), unvtobs (snd s), None).
+
+Fixpoint vtab_model (st : tstate) (steps : list vtstep) : list tobs :=
+  match steps with
+  | [] => []
+  | (bh, ob) :: r =>
+      let st' := brun_from st bh in
+      let rows := match ob with Ok (_, rows) => map fst rows | _ => [] end in
+      Ok (table_errors st', map (fun k => (k, row_errors st' k)) rows) :: vtab_model st' r
+  end.
+
+(* judged by the running-state form of the spec (Spec/ErrBulk.v): the table's
+   list is the log; a row outside the table shows its pending errors *)
+Fixpoint vtab_ok (s : sst) (steps : list vtstep) : bool :=
+  match steps with
+  | [] => true
+  | (bh, ob) :: r =>
+      let s' := fold_left sstep bh s in
+      match unvtobs ob with
+      | Ok (t, rows) =>
+          errs_eqb t (view (s_log s'))
+          && forallb (fun p => is_joined s' (fst p) || errs_eqb (snd p) (view (pend_of (s_pend s') (fst p)))) rows
+      | _ => false
+      end && vtab_ok s' r
+  end.
+
+(* well-formedness of a bulk history: [wf_event] looks at the kind and the row
+   of an event, never at its error, so one event stands for a whole run *)
+Definition brep (b : bev) : list event :=
+  match b with
+  | BOne ev => [ev]
+  | BRowErrs r k _ => [RowAddError r (Some k)]
+  | BTableErrs k _ => [TableAddError (Some k)]
+  | BCallbacks s r k _ => [CallbackFails s r (Some k)]
+  end.
+
 Inductive c11_case :=
 | CCont (m : cmode) (steps : list (cop * cobs))
 | CTab (steps : list (list event * tobs))
-| CTab2 (steps : list tstep).
+| CTab2 (steps : list tstep)
+| CContV (m : cmode) (steps : list (vop * vcobs))
+| CTabV (steps : list vtstep).
 
 Definition no_other (steps : list (list event * tobs)) : list tstep := map (fun s => (s, None)) steps.
 
@@ -98,6 +179,8 @@ Definition C11_ok (c : c11_case) : bool :=
   | CCont m steps => cont_ok m [] steps
   | CTab steps => tab_ok [] (no_other steps)
   | CTab2 steps => tab_ok [] steps
+  | CContV m steps => vcont_ok m [] steps
+  | CTabV steps => vtab_ok s_init steps
   end.
 
 Definition tab_corr (steps : list tstep) : bool :=
@@ -109,6 +192,8 @@ Definition C11_corr (c : c11_case) : bool :=
   | CCont m steps => list_eqb cobs_eqb (cont_model (create m) (map fst steps)) (map snd steps)
   | CTab steps => tab_corr (no_other steps)
   | CTab2 steps => tab_corr steps
+  | CContV m steps => list_eqb cobs_eqb (vcont_model (create m) (map fst steps)) (map (fun s => unvcobs (snd s)) steps)
+  | CTabV steps => list_eqb tobs_eqb (vtab_model init steps) (map (fun s => unvtobs (snd s)) steps)
   end.
 
 Definition C11_wf (c : c11_case) : bool :=
@@ -116,6 +201,8 @@ Definition C11_wf (c : c11_case) : bool :=
   | CCont _ _ => true
   | CTab steps => wf_histb (concat (map fst steps))
   | CTab2 steps => wf_histb (concat (map (fun s => fst (fst s)) steps))
+  | CContV _ _ => true
+  | CTabV steps => wf_histb (flat_map brep (concat (map fst steps)))
   end.
 
 Definition C11_case (c : c11_case) : N :=
@@ -127,6 +214,8 @@ Definition C11_model (c : c11_case) : list cobs * list (tobs * option (list err)
   | CCont m steps => (cont_model (create m) (map fst steps), [], cont_expected m (map fst steps))
   | CTab steps => ([], tab_model init (no_other steps), expected_errors (concat (map fst steps)))
   | CTab2 steps => ([], tab_model init steps, expected_errors (concat (map (fun s => fst (fst s)) steps)))
+  | CContV m steps => ([], [], vexpected m (map fst steps))
+  | CTabV steps => ([], [], s_log (srun (concat (map fst steps))))
   end.
 
 (* short forms for cases.v (elaborating the literals is what a run costs) *)
@@ -134,3 +223,7 @@ Definition s1 (o : cop) (v : option (list err)) : cop * cobs := (o, Ok (v, v)).
 Definition s2 (o : cop) (v w : option (list err)) : cop * cobs := (o, Ok (v, w)).
 Definition e (n : N) : err := Some n.
 Notation CF := CallbackFails (only parsing).
+Definition v1 (o : vop) (v : vview) : vop * vcobs := (o, Ok (v, v)).
+Definition v2 (o : vop) (v w : vview) : vop * vcobs := (o, Ok (v, w)).
+Definition g (k n : N) : seg := (Some k, n).
+Definition gn (n : N) : seg := (None, n).
